@@ -76,7 +76,11 @@ impl EnergyFunction for HarmonicAngleTypeA {
         let v18 = v12 * v0 + v11 * v8 + v7 * v5;
         let v19 = v18.powi(2);
         let v20 = (-v19 / v14 + 1.).sqrt();
-        let v21 = (v18 / v17).acos();
+        if !(v20 > 0.) {
+            // i, j and k are collinear: cos(θ) is stationary there, so this term's gradient is zero
+            return;
+        }
+        let v21 = (v18 / v17).clamp(-1., 1.).acos();
         let v22 = (self.n * v21).sin();
         gradient[self.i].x +=
             -self.k_ijk * ((-x_i + x_j) * v18 / (v4.powf(1.5) * v15) + v0 / v17) * v22
@@ -197,8 +201,12 @@ impl EnergyFunction for HarmonicAngleTypeB {
         let v17 = v16 * v15;
         let v18 = v12 * v0 + v11 * v8 + v7 * v5;
         let v19 = v18.powi(2);
-        let v20 = (v18 / v17).acos();
+        let v20 = (v18 / v17).clamp(-1., 1.).acos();
         let v21 = (-v19 / v14 + 1.).sqrt();
+        if !(v21 > 0.) {
+            // i, j and k are collinear: cos(θ) is stationary there, so this term's gradient is zero
+            return;
+        }
         let v22 = (2. * v20).sin();
         gradient[self.i].x += self.k_ijk
             * (self.c1 * (-x_i + x_j) * v18 / (v4.powf(1.5) * v15)
